@@ -76,6 +76,18 @@ def call_external(I, name, args, kwargs, node, frame):
         if k:
             raise E.PyExc(VExc(["JSONDecodeError", "RecursionError", "ValueError"][k - 1]), "json.loads")
         return VAny(_fn("json_loads", z3.StringSort(), AnySort)(args[0].t), "json")
+    if name == "ast.parse":
+        k = run.choose([("ok", None), ("SyntaxError", None), ("ValueError", None), ("RecursionError", None), ("MemoryError", None)],
+                       "ast.parse")
+        if k:
+            raise E.PyExc(VExc(["SyntaxError", "ValueError", "RecursionError", "MemoryError"][k - 1]), "ast.parse")
+        return VAny(_fn("ast_parse", z3.StringSort(), AnySort)(args[0].t), "astnode")
+    if name == "ast.literal_eval":
+        k = run.choose([("ok", None), ("ValueError", None), ("SyntaxError", None), ("RecursionError", None), ("MemoryError", None),
+                        ("TypeError", None)], "ast.literal_eval")
+        if k:
+            raise E.PyExc(VExc(["ValueError", "SyntaxError", "RecursionError", "MemoryError", "TypeError"][k - 1]), "ast.literal_eval")
+        return VAny(_fn("ast_literal_eval", z3.StringSort(), AnySort)(args[0].t), "pyvalue")
     if name.startswith("math."):
         f = name.split(".")[1]
         if f in ("floor", "ceil") and args and isinstance(args[0], (VInt, VReal)):
@@ -273,6 +285,8 @@ def call_builtin(I, name, args, kwargs, node, frame):
     if name == "reversed":
         return I.new_list(list(reversed(I.iterate_concrete(args[0]))))
     if name == "sorted":
+        if isinstance(args[0], VGen) or (isinstance(args[0], VRef) and not run.rec(args[0].oid).concrete):
+            return I.fresh(("list", ("any",)), run.fresh_name("sorted"))
         return I.sorted_(args[0], kwargs)
     if name in ("sum", "any", "all"):
         return I.fold_builtin(name, args, kwargs)
